@@ -46,9 +46,15 @@ SITES = {
     'contents_of': dict(default='home', acc=_READ, post=[], maybe_post=['result'], abs_ok=True, dest=False),
     # FILES-SOURCE dir-contents-of PATH: the manual gives no relativity table at all
     'dir_contents_of': dict(default=None, acc=[], post=[], maybe_post=[], maybe=KINDS, abs_ok=True, dest=False),
+    # `stdin = -contents-of PATH` ([setup]) and `-stdin -contents-of PATH` of a PROGRAM: TEXT-SOURCE as above
+    'stdin': dict(default='home', acc=_READ, post=[], maybe_post=[], abs_ok=True, dest=False),
+    'pgm_stdin': dict(default='home', acc=_READ, post=[], maybe_post=['result'], abs_ok=True, dest=False),
     'existing': dict(default='home', acc=_READ, post=[], maybe_post=[], abs_ok=True, dest=False),
     'exe': dict(default='home', acc=_READ, post=[], maybe_post=[], abs_ok=True, dest=False),
     'act_exe': dict(default='act-home', acc=_READ, post=[], maybe_post=[], abs_ok=True, dest=False),
+    # actor "file interpreter": `[conf] actor = file ACT-INTERPRETER`, `[act] FILE ...`
+    'act_file': dict(default='act-home', acc=_READ, post=[], maybe_post=[], abs_ok=True, dest=False),
+    'act_interp': dict(default='home', acc=['home', 'act-home'], post=[], maybe_post=[], abs_ok=True, dest=False),
     'def': dict(default='cd', acc=KINDS, post=[], maybe_post=[], abs_ok=True, dest=False),
 }
 ASSERT_ONLY = ('exists', 'contents', 'dir-contents')
@@ -72,9 +78,13 @@ MANUAL_PAGES = {
     'contents': [(['help', 'assert', 'contents'], 'PATH')],
     'dir-contents': [(['help', 'assert', 'dir-contents'], 'PATH')],
     'contents_of': [(['help', 'syntax', 'TEXT-SOURCE'], 'SOURCE-FILE-PATH')],
+    'stdin': [(['help', 'syntax', 'TEXT-SOURCE'], 'SOURCE-FILE-PATH')],
+    'pgm_stdin': [(['help', 'syntax', 'TEXT-SOURCE'], 'SOURCE-FILE-PATH')],
     'existing': [(['help', 'syntax', 'PROGRAM-ARGUMENT'], 'PATH-OF-EXISTING')],
     'exe': [(['help', 'syntax', 'PROGRAM'], 'PATH')],
     'act_exe': [(['help', 'actor', 'command', 'line'], None)],
+    'act_file': [(['help', 'actor', 'file', 'interpreter'], None)],
+    'act_interp': [(['help', 'syntax', 'ACT-INTERPRETER'], None)],
 }
 
 
@@ -165,13 +175,21 @@ def fixture():
             d('d1/d2')
             f('d1/d2/f3')
             f('d1/a b')
-            f('x1', "#!/bin/sh\nprintf %s '" + loc_label(area, _j(b, 'x1')) + "'\n")
+            for x in EXES:  # executable at every level of T
+                f(x, "#!/bin/sh\nprintf %s '" + loc_label(area, _j(b, x)) + "'\n")
             if (area, b) in EXTRA_BASES:
                 f('g1')
                 d('gd')
                 f('gd/g2')
     tree[('SB', 'tmp/o')] = ['d']
     return tree
+
+
+EXES = ('x1', 'd1/x2', 'd1/d2/x3')
+
+
+def is_exe(rel):
+    return rel.rsplit('/', 1)[-1] in ('x1', 'x2', 'x3')
 
 
 def tag_name(area, rel):
@@ -280,6 +298,7 @@ class State:
         self.renders = {}  # id -> list of expected absolute strings
         self.cwds = {}
         self.act_stdout = None
+        self.stdin = None  # (PV, content when the `stdin` instruction was executed)
         self.info = {}  # op index -> data the renderer needs (expected contents ...)
         self.uses = []  # one record per evaluated PATH (labels)
 
@@ -300,9 +319,26 @@ class State:
         return _j(self.root(pv.kind), pv.suffix)
 
     def locate(self, pv):
-        loc = locate(self.resolve(pv))
+        path = self.resolve(pv)
+        loc = locate(path)
         if loc is None:
             raise Broken('path leaves the modelled areas: %r' % (pv,))
+        # `X/..` denotes the parent of X only if X is an existing directory (no symbolic links in the fixture):
+        # anything else is a matter of the file system, not of path resolution - outside the domain
+        if '..' in path:
+            for area, pre in (('SB', '{SB}'), ('H', '{HOME}'), ('X', '{ROOT}/absarea')):
+                if path == pre or path.startswith(pre + '/'):
+                    out = []
+                    for c in path[len(pre):].split('/'):
+                        if c in ('', '.'):
+                            continue
+                        if c == '..':
+                            if self.kind_at((area, '/'.join(out))) != 'd':
+                                raise Broken("'..' after something that is not an existing directory: %s" % path)
+                            out.pop()
+                        else:
+                            out.append(c)
+                    break
         return loc
 
     # -- FILE-NAME -------------------------------------------------------------------------------------------
@@ -637,9 +673,14 @@ class State:
             out = ('SB', 'tmp/o/%d' % i)
             if kind is None:
                 raise Broken('%s of missing %r' % (site, loc))
-            if site == 'contents_of':
+            if site in ('contents_of', 'pgm_stdin'):
                 self._need(kind, 'f', loc)
                 self.tree[out] = ['f', self.tree[loc][1]]
+            elif site == 'stdin':
+                if ph != 'setup' or self.stdin is not None:
+                    raise Broken('stdin: only once, only in [setup]')
+                self._need(kind, 'f', loc)
+                self.stdin = (pv, self.tree[loc][1])
             elif site == 'dir_contents_of':
                 self._need(kind, 'd', loc)
                 self.copy_tree(loc, out)
@@ -673,13 +714,30 @@ class State:
         if k == 'plain':
             self.act_stdout = None
             return
+        if k == 'cat':
+            # [act] copies its stdin to stdout.  The manual does not say whether the file named by `stdin` is read
+            # when the instruction is executed or when [act] is: the domain is restricted to cases where both agree
+            if self.stdin is None:
+                self.act_stdout = ['f', '']
+                return
+            pv, text = self.stdin
+            loc = self.locate(pv)
+            if self.kind_at(loc) != 'f' or self.tree[loc][1] != text:
+                raise Broken('the file given to stdin changed before [act]')
+            self.act_stdout = ['f', text]
+            return
         info = EvalInfo()
         n_used = len(self.used)
         try:
-            if k == 'exe':
-                pv = self.eval(act['expr'], 'act_exe', 'act', info)
+            if k in ('exe', 'file', 'interp'):
+                # exe: [act] = PATH (actor command line); file: actor = file % sh, [act] = PATH of a shell script;
+                # interp: actor = file PATH (a fixture script: prints its own location, ignores its argument)
+                site = {'exe': 'act_exe', 'file': 'act_file', 'interp': 'act_interp'}[k]
+                pv = self.eval(act['expr'], site, 'act', info)
                 loc = self.locate(pv)
                 self._need(self.kind_at(loc), 'f', loc)
+                if not is_exe(loc[1]):
+                    raise Broken('%r is not a script' % (loc,))
                 self.act_stdout = ['f', exe_output(self.tree[loc][1])]
             elif k == 'arg':
                 pv = self.eval(act['expr'], 'existing', 'act', info)
